@@ -318,6 +318,16 @@ def gen_bland_chain(rng, K, solver):
             "opt_known": -(-d // K), "init_opt_known": -(-d // K), "family": "work_pivots", "no_coq": True, "work": True, "timeout": 300}
 
 
+def gen_pair_million(rng):
+    """M: two piece types of the same size s on rolls of width 2s, both with the same ODD demand d in (10^6, 2^20): two pieces per roll, so the
+    minimum is exactly d (area bound), the LP optimum is fractional (d/2 rolls of each pure pattern) and rounding gives d + 1.  With more than
+    1/gap_tol = 10^6 rolls the relative gap of that plan is below gap_tol: it must not be labelled OPTIMAL (fix b06cee9)."""
+    s_ = rng.choice([2, 3, 5, 7])
+    d = rng.randrange(10**6 + 1, 2**20 - 1, 2)
+    return {"kind": "cs", "solver": "bp", "sizes": [s_, s_], "width": 2 * s_, "demands": [d, d], "max_iter": None, "max_nodes": rng.choice([None, 5, 50]),
+            "opt_known": d, "family": "magnitude_million_rolls", "no_coq": True, "timeout": 60}
+
+
 def gen_many_pivots(rng, m):
     """m rows in custom mode: phase 1 has to drive m artificials out, > m pivots in one simplex_phase call."""
     c = gen_rows_custom(rng, m)
@@ -422,6 +432,8 @@ def extra_cases(ctx: Ctx):
         heavy.append(gen_deep_tree(rng, DEEP_TREES[0], None))     # default max_nodes = 10000 reached
         heavy.append(gen_deep_tree(rng, DEEP_TREES[1], None))
     heavy.append(gen_many_pivots(rng, 130))
+    for _ in range(8 if thorough else 3):
+        heavy.append(gen_pair_million(rng))
     if thorough:
         heavy.append(gen_many_pivots(rng, 260))
     for i, c in enumerate(heavy):      # spread over the list: pmap hands out chunks of 8 consecutive cases
